@@ -193,12 +193,38 @@ def run(ctx):
             t = txt(sl.target)
             aug = [x for x in ast.walk(sl) if isinstance(x, ast.AugAssign) and isinstance(x.op, ast.Mult)][0]
             inner = par.loops_of(aug)[0]
-            ok_target = isinstance(aug.target, ast.Subscript) and txt(aug.target.value) == f"{P_OBS}[{t}]" and txt(aug.target.slice) == txt(inner.target) \
-                and txt(inner.iter) in (f"{P_OBS}[{t}]", f"{P_OBS}[{t}].keys()", f"list({P_OBS}[{t}])", f"list({P_OBS}[{t}].keys())")
-            if not ok_target:
+            # local aliases of the observation being rescaled (obs = p_obs[topology])
+            alias = {}
+            for s_ in sl.body:
+                if isinstance(s_, (ast.Assign, ast.AnnAssign)) and txt(s_.value) == f"{P_OBS}[{t}]":
+                    alias[txt(s_.targets[0] if isinstance(s_, ast.Assign) else s_.target)] = f"{P_OBS}[{t}]"
+
+            def de(x):
+                tx = txt(x)
+                for a_, full in alias.items():
+                    if tx == a_ or tx.startswith(a_ + "[") or tx.startswith(a_ + "."):
+                        tx = full + tx[len(a_):]
+                return tx
+            # the factor must not be computed, inside the loop, from an entry that the loop itself rescales
+            reads_scaled = [x for x in ast.walk(aug.value) if isinstance(x, ast.Subscript) and de(x.value) == f"{P_OBS}[{t}]"]
+            fdef0 = sc.def_stmt(txt(aug.value)) if isinstance(aug.value, ast.Name) else None
+            if reads_scaled or (fdef0 is not None and par.inside(fdef0, inner)):
+                o.violated(gf, aug, f"the scale factor `{txt(aug.value)}` is evaluated inside the loop from `{txt(reads_scaled[0]) if reads_scaled else txt(fdef0)}`, an entry of the very "
+                                    "observation being rescaled: once the loop has passed the common key the factor collapses to 1 and the remaining entries keep the wrong scale")
+                ok_target = None
+            else:
+                ok_target = isinstance(aug.target, ast.Subscript) and de(aug.target.value) == f"{P_OBS}[{t}]" and txt(aug.target.slice) == txt(inner.target) \
+                    and de(inner.iter) in (f"{P_OBS}[{t}]", f"{P_OBS}[{t}].keys()", f"list({P_OBS}[{t}])", f"list({P_OBS}[{t}].keys())")
+            if ok_target is None:
+                pass
+            elif not ok_target and False:
+                pass
+            if ok_target is None:
+                pass
+            elif not ok_target:
                 o.undecided("scaled entries are not `p_obs[topology][key] for key in p_obs[topology]`", gf, aug)
             else:
-                factor = rules.term_of(aug.value, sc, keep=[P_OBS, ck or "", ref_nm])
+                factor = rules.term_of(aug.value, sc, keep=[P_OBS, ck or "", ref_nm], allow_mutated=True)
                 want = tm.parse(f"{P_OBS}[{ref_nm}][{ck}] / {P_OBS}[{t}][{ck}]")
                 if ck and factor == want:
                     o.holds(gf, aug, f"every entry of P_t is multiplied by P_ref[c] / P_t[c]")
